@@ -405,6 +405,58 @@ def check_side_by_side(case):
     return True, ["side-by-side", case["pattern"]]
 
 
+# ---- two users of one client refresh at the same time ------------------------------------------------------------------
+
+def two_users_cases(tier, seed):
+    for before, after in (([0, 1, 2], [1, 2, 3]), ([0, 1], [0, 1]), ([0, 1, 2, 3], [3]), ([0], [1, 2])):
+        for pooling in (False, True):
+            for vpc in (True, False):
+                for first in (0, 1):
+                    for nch in range(0, 7):
+                        # the i-th socket call decides who goes on: all patterns of handing over at the first six calls
+                        for mask in ((0, 1, 2, 5, 9, 21, 63) if tier == "quick" else range(64)):
+                            if nch != 6:
+                                continue
+                            yield {"before": before, "after": after, "pooling": pooling, "use_vpc": vpc, "first": first,
+                                   "choices": [(mask >> b) & 1 for b in range(6)] + [1, 0, 1, 1, 0, 0, 1] * 3}
+
+
+def check_two_users(case):
+    """two users of ONE client (threads, or tasks that switch at socket calls) both call reconfigure_nodes() after the
+    cluster changed: both calls succeed, the rotation is the advertised list, connections to replaced nodes are closed,
+    nothing is left open to the configuration endpoint"""
+    from vlib import interleave
+    w = World()
+    use_vpc = case["use_vpc"]
+    desc = "two overlapping reconfigure_nodes() on one client (use_vpc=%r pooling=%r), cluster %r -> %r, hand-over pattern %r, user %d starts" % (
+        use_vpc, case["pooling"], case["before"], case["after"], case["choices"][:6], case["first"])
+    with virtual_time(w.clock):
+        w.advertise(1, case["before"])
+        hc = AWSElastiCacheHashClient(CFG, socket_module=w.net, use_vpc=use_vpc, use_pooling=case["pooling"], default_noreply=False, timeout=1)
+        for i in range(30):
+            hc.set("warm-%d" % i, b"v")           # connections to the old nodes exist
+        w.advertise(2, case["after"])
+        out, sc = interleave.run(w.net, [hc.reconfigure_nodes, hc.reconfigure_nodes], choices=case["choices"], first=case["first"])
+        for u, r in enumerate(out):
+            if r[0] == "exc":
+                raise Violation(["two-users", "reconfigure-raises", type(r[1]).__name__], "user %d's reconfigure_nodes raised %r although the endpoint is healthy: %s" % (u, r[1], desc))
+        want = {(NODES[i][1] if use_vpc else NODES[i][0], NODES[i][2]) for i in case["after"]}
+        names = {"%s:%s" % a for a in want}
+        if set(hc.hasher.nodes) != names or set(hc.clients) != names:
+            raise Violation(["two-users", "rotation-differs"], "rotation %r / clients %r, advertised %r: %s" % (sorted(hc.hasher.nodes), sorted(hc.clients), sorted(names), desc))
+        for i in range(40):
+            k = "key-%d" % i
+            if hc.set(k, b"x") is not True or hc.get(k) != b"x":
+                raise Violation(["two-users", "traffic-fails"], "set/get of %r fails afterwards: %s" % (k, desc))
+        for s in w.net.sockets:
+            if not s.closed and s.addr and (s.addr[0] == CFG_HOST or (s.addr[0], int(s.addr[1])) not in want):
+                raise Violation(["two-users", "stale-connection-open"], "socket to %r still open afterwards: %s" % (s.addr, desc))
+        hc.close()
+        if w.net.open_sockets():
+            raise Violation(["two-users", "socket-left-open"], "sockets left open after close(): %s" % desc)
+    return sc.switches > 0, ["two-users", "switches=%d" % min(sc.switches, 6)]
+
+
 def history_strategy(tier):
     nodes = st.lists(st.one_of(st.integers(0, 7), st.integers(0, 12)), min_size=1, max_size=6, unique=True)
     sched = st.one_of(st.none(), st.lists(st.sampled_from([1, 2, 3, 5, 8, 13, 50, 4096]), min_size=1, max_size=4))
@@ -419,6 +471,7 @@ PARTS = [
     Part("reply-segmentations", "enum", check, cases=segmentation_cases, exhaustive=True),
     Part("fixed-histories", "enum", check, cases=fixed_history_cases, shards={"quick": 4, "thorough": 8}),
     Part("large-clusters", "enum", check_big_cluster, cases=big_cluster_cases, shards={"quick": 8, "thorough": 16}, exhaustive=True),
+    Part("two-users-refresh-together", "enum", check_two_users, cases=two_users_cases, shards={"quick": 4, "thorough": 8}, exhaustive=True),
     Part("clients-side-by-side", "enum", check_side_by_side, cases=side_by_side_cases, shards={"quick": 4, "thorough": 8}, exhaustive=True),
     Part("random-histories", "hyp", check, strategy=history_strategy,
          examples={"quick": 60, "thorough": 4000}, shards={"quick": 4, "thorough": 16}),
